@@ -35,6 +35,8 @@ func main() {
 		os.Exit(cmdCheck(os.Args[2:]))
 	case "selftest":
 		os.Exit(cmdSelftest(os.Args[2:]))
+	case "overlay":
+		os.Exit(cmdOverlay(os.Args[2:]))
 	case "explore":
 		os.Exit(cmdExplore(os.Args[2:]))
 	case "list":
